@@ -72,6 +72,16 @@ def isLatticeCloud (P : List (V3 Rat)) : Bool :=
     m.fold (fun acc _ v => max acc v) 0
   max (countMax (·.x)) (max (countMax (·.y)) (countMax (·.z))) ≥ 16
 
+/-- rotation-invariant form of the same classification: some plane through three of the given (hull) vertices contains at
+least five *distinct* input points within `1e-9 · diag` — a generic cloud has exactly three on every such plane.
+`planes`: (point, exact normal) of the candidate planes (the non-sliver faces of the returned mesh). -/
+def hasCoplanarSubset (P : List (V3 Rat)) (planes : List (V3 Rat × V3 Rat)) : Bool :=
+  let diag2 := diag2Of P
+  let lim : Rat := diag2 / 1000000000000000000
+  let D : List (V3 Rat) := ((P.map fun p => (p.x, p.y, p.z)).eraseDups).map fun (x, y, z) => ⟨x, y, z⟩
+  planes.any fun (a, n) =>
+    (D.filter fun p => let t := n.dot (p.sub a); t * t ≤ lim * n.normSq).length ≥ 5
+
 /-- `true` when the cloud is clearly full-dimensional: a tetrahedron `a b c d` chosen greedily (first point, farthest point,
 farthest from the line, farthest from the plane) has base height and tetrahedron height at least `1e-3 · diag`. -/
 def fullDim (P : List (V3 Rat)) : Bool :=
@@ -147,6 +157,9 @@ def polyOracle (input : Option (List (V3 Rat))) (d : PolyDump) : String := Id.ru
         -- a non-convex hull is the 3-D quickhull's fault (known finding on lattice clouds), judged by `hull3` on the same cloud
         if (match input with | some I => isLatticeCloud I | none => false) then
           return "skip hull-not-convex[coplanar-lattice-cloud]-judged-by-hull3"
+        let planes := (List.range nf).map fun g => (pt ((fverts g).headD 0), fnormal g)
+        if (match input with | some I => hasCoplanarSubset I planes | none => false) then
+          return "skip hull-not-convex[coplanar-subset-cloud]-judged-by-hull3"
         return s!"fail point-outside-face face={f} ({p.x},{p.y},{p.z})"
   -- (1) edges: vertices and faces in range
   for e in List.range ne do
